@@ -33,7 +33,8 @@ RULE = ('small codes: one case per Pauli operator (all 4^n; in quick a '
         'probe vector; distinct = (class,size,deformation,vector); '
         'non-trivial = vector != 0')
 ASSUMPTIONS = ['supported size family = pv/families.py']
-REQUIRED_COUNTERS = ['vectors_classified', 'history_steps', 'in_group', 'logical_nontrivial',
+REQUIRED_COUNTERS = ['vectors_classified', 'history_steps',
+                     'objects_touched_before_judging', 'in_group', 'logical_nontrivial',
                      'out_of_codespace', 'run_once_records']
 EXHAUSTIVE = True
 EXHAUSTIVE_SCOPE = ('per small code listed in coverage.exhaustive_codes: '
@@ -94,6 +95,14 @@ def plan(tier, seed):
     tasks.append({'kind': 'run_once', 'seed': seed, 'tier': tier,
                   'cost': 3000})
     return tasks
+
+
+def touch(code):
+    """What constructing a Simulation (and ordinary use) reads off a code
+    object before any verdict is asked for."""
+    for attr in ('label', 'id', 'params', 'n', 'k', 'd', 'is_css',
+                 'n_stabilizers', 'x_indices', 'z_indices', 'size'):
+        getattr(code, attr)
 
 
 class Oracle:
@@ -167,8 +176,13 @@ def judge(code, orc, e_int, desc, out, mech_base, dtype='uint8'):
 
 def run_small(task, out):
     cls, size = task['cls'], tuple(task['size'])
+    # the reference is taken from one object, the verdicts from ANOTHER one
+    # on which the derived attributes were read first (every second chunk)
     code = fam.build(cls, size, task['deformation'], task['kwargs'])
-    orc = Oracle(code)
+    orc = Oracle(fam.build(cls, size, task['deformation'], task['kwargs']))
+    if (task['chunk'] + len(cls)) % 2 == 0:
+        touch(code)
+        out.count('objects_touched_before_judging')
     n = orc.n
     desc = {'cls': cls, 'size': list(size),
             'deformation': task['deformation'], 'kwargs': task['kwargs']}
@@ -204,7 +218,9 @@ def run_small(task, out):
 def run_large(task, out):
     cls, size = task['cls'], tuple(task['size'])
     code = fam.build(cls, size, task['deformation'], task['kwargs'])
-    orc = Oracle(code)
+    orc = Oracle(fam.build(cls, size, task['deformation'], task['kwargs']))
+    touch(code)
+    out.count('objects_touched_before_judging')
     n, k = orc.n, orc.k
     rng = np.random.default_rng([task['seed'], 404, len(cls), n])
     desc = {'cls': cls, 'size': list(size),
